@@ -273,6 +273,7 @@ func parallel(n, workers int, f func(i int)) {
 // Agg accumulates the worker summaries of a whole check run.
 type Agg struct {
 	mu           sync.Mutex
+	cur          *Check // round in progress
 	Procs        int64
 	ColdProcs    int64
 	Runs         int64
@@ -310,6 +311,7 @@ type foundViolation struct {
 	V     *workerlib.Violation
 	Proc  *ProcResult
 	Stage string
+	C     *Check // the round (corpus, references) it was found in
 }
 
 func newAgg() *Agg {
@@ -432,7 +434,7 @@ func (a *Agg) add(stage string, pr *ProcResult) {
 		}
 	}
 	for _, v := range pr.Violations {
-		a.Violations = append(a.Violations, &foundViolation{V: v, Proc: pr, Stage: stage})
+		a.Violations = append(a.Violations, &foundViolation{V: v, Proc: pr, Stage: stage, C: a.cur})
 	}
 	if pr.Session.DistinctPath != "" {
 		a.addDistinct(pr.Session.DistinctPath)
